@@ -178,6 +178,15 @@ func runC16(c *core.Ctx, ck *Check) {
 		for b := 0; b < bases; b++ {
 			k := 1 + r.IntN(7)
 			pick := r.Perm(len(chain))[:k]
+			if b%3 != 0 {
+				// neighbours in the scheme's order (cluster mates: the same numbers with another marker, separator or
+				// spelling), in shuffled textual order: where an order that is not quite transitive shows
+				start := r.IntN(len(chain) - k + 1)
+				for x := range pick {
+					pick[x] = start + x
+				}
+				r.Shuffle(k, func(a, b int) { pick[a], pick[b] = pick[b], pick[a] })
+			}
 			parts := make([]string, k)
 			for x := 0; x < k; x++ {
 				parts[x] = versOps[r.IntN(len(versOps))] + p.Strs[chain[pick[x]]]
@@ -280,7 +289,12 @@ func runC16(c *core.Ctx, ck *Check) {
 					if e1 != nil || p2 != nil || e2 != nil || g1 != g2 {
 						if reported[a.kind] < 5 {
 							vs := evalC16(c, nil, "vers-meta", []string{base, a.text, p.Strs[pi], a.kind})
-							if len(vs) == 0 {
+							// "asked again, both agree": only then was the first difference an effect of earlier calls (evalC16 also
+							// returns nothing for cases outside the quantifier, e.g. Compare-equal constraint versions)
+							ga, ea, pa := eco.SafeVersContains(base, p.Strs[pi])
+							gb, eb, pb := eco.SafeVersContains(a.text, p.Strs[pi])
+							agreeNow := pa == nil && pb == nil && (ea == nil) == (eb == nil) && (ea != nil || ga == gb)
+							if len(vs) == 0 && agreeNow {
 								// not reproducible when asked again: the first answer depended on what an earlier call left behind
 								vs = []core.Violation{{Eco: "vers", Op: "vers-meta", Args: []string{base, a.text, p.Strs[pi], a.kind}, Rule: a.kind + ":answer-depended-on-earlier-calls",
 									Got: b2s(g2) + "," + errNil(e2), Want: b2s(g1) + "," + errNil(e1), Detail: "want = first answer for the base spelling, got = answer for the respelling; asked again, both agree"}}
